@@ -55,6 +55,11 @@ def WFTy (rxOK : Str → Bool) : Ty → Prop
   | .array t lo hi => WFTy rxOK t ∧ inI64 lo hi
   | .hash k v lo hi => WFTy rxOK k ∧ WFTy rxOK v ∧ inI64 lo hi
   | .collection lo hi => inI64 lo hi
+  | .tuple ts sz =>
+    WFTys rxOK ts ∧
+    (match sz with
+     | none => ts ≠ []
+     | some r => inI64 r.1 r.2 ∧ 0 ≤ r.2)
 def WFTys (rxOK : Str → Bool) : List Ty → Prop
   | [] => True
   | t :: ts => WFTy rxOK t ∧ WFTys rxOK ts
@@ -181,6 +186,16 @@ theorem lit_tyExpr (env : Env) : (t : Ty) → WFTy env.rxOK t → Lit env (tyExp
     split
     · trivial
     · exact litL_sizeParams env lo hi h
+  | .tuple ts sz, h => by
+    simp only [tyExpr]
+    refine lit_tname env _ _ (litL_append env _ _ (litL_tyExprs env ts h.1) ?_)
+    cases sz with
+    | none => trivial
+    | some r =>
+      simp only
+      split
+      · trivial
+      · exact litL_sizeParams env r.1 r.2 h.2.1
 theorem litL_tyExprs (env : Env) : (ts : List Ty) → WFTys env.rxOK ts → LitL env (tyExprs ts)
   | [], _ => trivial
   | t :: ts, h => ⟨lit_tyExpr env t h.1, litL_tyExprs env ts h.2⟩
@@ -421,6 +436,68 @@ theorem sizeArg_intOr (hi : Int) : intOr i64max (if hi = i64max then Arg.dflt el
 theorem tyExprs_isEmpty (ts : List Ty) : (tyExprs ts).isEmpty = ts.isEmpty := by
   cases ts <;> simp [tyExprs]
 
+/-! #### Tuple -/
+
+theorem exprsOf_append (a b : List Val) : exprsOf (a ++ b) = exprsOf a ++ exprsOf b := by
+  induction a with
+  | nil => simp [exprsOf]
+  | cons x xs ih => simp [exprsOf, ih]
+
+theorem resolveArgs_append (rxOK : Str → Bool) (a b : List Expr) (x y : List Arg)
+    (ha : resolveArgs rxOK a = some x) (hb : resolveArgs rxOK b = some y) :
+    resolveArgs rxOK (a ++ b) = some (x ++ y) := by
+  induction a generalizing x with
+  | nil => simp [resolveArgs] at ha; subst ha; simpa using hb
+  | cons e es ih =>
+    simp only [resolveArgs, Option.bind_eq_some_iff, Option.map_eq_some_iff] at ha
+    obtain ⟨a1, h1, as, h2, rfl⟩ := ha
+    simp [resolveArgs, h1, ih as h2]
+
+/-- arguments whose first element is not an array are not flattened -/
+theorem tupleFlat_id (l : List Arg) (h : ∀ a ∈ l.head?, ∀ as, a ≠ Arg.arr as) : tupleFlat l = some l := by
+  unfold tupleFlat
+  split
+  · rename_i as; exact absurd rfl (h (.arr as) (by simp) as)
+  · rename_i as lo hi; exact absurd rfl (h (.arr as) (by simp) as)
+  · rename_i as x _; exact absurd rfl (h (.arr as) (by simp) as)
+  · rfl
+
+theorem tupleMk_tys (ts : List Ty) (rng : Option (Int × Int)) (h : ts ≠ []) :
+    tupleMk (ts.map Arg.ty) rng = some (.tuple ts rng) := by
+  cases ts with
+  | nil => exact absurd rfl h
+  | cons t ts' =>
+    have := mapM_argTy (t :: ts')
+    simp only [List.map_cons] at this
+    simp [tupleMk, this]
+
+theorem tupleBody_tys (ts : List Ty) (h : ts ≠ []) : tupleBody (ts.map Arg.ty) = some (.tuple ts none) := by
+  obtain ⟨init, t, rfl⟩ : ∃ init t, ts = init ++ [t] := by
+    rcases List.eq_nil_or_concat ts with hn | ⟨init, t, hc⟩
+    · exact absurd hn h
+    · exact ⟨init, t, by simpa using hc⟩
+  unfold tupleBody
+  simp only [List.map_append, List.map_cons, List.map_nil, List.reverse_append, List.reverse_cons, List.reverse_nil,
+    List.nil_append, List.cons_append]
+  have := tupleMk_tys (init ++ [t]) none (by simp)
+  simpa using this
+
+theorem tupleBody_sized (ts : List Ty) (lo hi : Int) (h : inI64 lo hi) (h0 : 0 ≤ hi) :
+    tupleBody (ts.map Arg.ty ++ [.int lo, if hi = i64max then .dflt else .int hi]) = some (.tuple ts (some (lo, hi))) := by
+  obtain ⟨h1, h2, h3⟩ := h
+  have hlt : ¬ lo > hi := by omega
+  unfold tupleBody
+  simp only [List.reverse_append, List.reverse_cons, List.reverse_nil, List.nil_append, List.cons_append]
+  have hmk : tupleMk (ts.map Arg.ty) (some (lo, hi)) = some (.tuple ts (some (lo, hi))) := by
+    cases ts with
+    | nil => simp [tupleMk]
+    | cons t ts' => exact tupleMk_tys _ _ (by simp)
+  by_cases hhi : hi = i64max
+  · subst hhi
+    simp [newInt, hlt, hmk]
+  · have hge : hi ≥ 0 := h0
+    simp [hhi, hge, newInt, hlt, hmk]
+
 mutual
 theorem resolve_tyExpr (rxOK : Str → Bool) : (t : Ty) → WFTy rxOK t → resolve rxOK (exprOf (tyExpr t)) = some t
   | .named n, h => resolve_named rxOK n h
@@ -550,6 +627,45 @@ theorem resolve_tyExpr (rxOK : Str → Bool) : (t : Ty) → WFTy rxOK t → reso
           by_cases hhi : hi = i64max
           · subst hhi; simp [createK, sizes2, intOr, newInt, hlt]
           · simp [createK, sizes2, intOr, newInt, hlt, hhi]
+  | .tuple ts sz, h => by
+    obtain ⟨hts, hsz⟩ := h
+    have ihs := resolveArgs_tyExprs rxOK ts hts
+    simp only [tyExpr, resolve_tname]
+    cases sz with
+    | none =>
+      simp only [List.append_nil, tyExprs_isEmpty]
+      have hne : ts ≠ [] := hsz
+      have hemp : ts.isEmpty = false := by cases ts <;> simp_all
+      simp only [hemp, Bool.false_eq_true, if_false, ihs, Option.bind, createK, tupleCreate]
+      have hflat : tupleFlat (ts.map Arg.ty) = some (ts.map Arg.ty) := by
+        apply tupleFlat_id
+        intro a ha as
+        cases ts with
+        | nil => simp at ha
+        | cons t ts' => simp at ha; subst ha; simp
+      simp [hflat, tupleBody_tys ts hne]
+    | some r =>
+      obtain ⟨lo, hi⟩ := r
+      obtain ⟨hin, h0⟩ := hsz
+      simp only
+      by_cases hd : ts.isEmpty = true ∧ lo = 0 ∧ hi = i64max
+      · obtain ⟨he, rfl, rfl⟩ := hd
+        have : ts = [] := by cases ts <;> simp_all
+        subst this
+        simp [tyExprs, defaultOf]
+      · simp only [hd, if_false]
+        have hne : (tyExprs ts ++ sizeParams lo hi).isEmpty = false := by simp [sizeParams]
+        simp only [hne, Bool.false_eq_true, if_false, exprsOf_append]
+        rw [resolveArgs_append rxOK _ _ _ _ ihs (resolveArgs_sizeParams rxOK lo hi)]
+        simp only [Option.bind, createK, tupleCreate]
+        have hflat : tupleFlat (ts.map Arg.ty ++ [.int lo, if hi = i64max then .dflt else .int hi]) =
+            some (ts.map Arg.ty ++ [.int lo, if hi = i64max then .dflt else .int hi]) := by
+          apply tupleFlat_id
+          intro a ha as
+          cases ts with
+          | nil => simp at ha; subst ha; simp
+          | cons t ts' => simp at ha; subst ha; simp
+        simp [hflat, tupleBody_sized ts lo hi hin h0]
 theorem resolveArgs_tyExprs (rxOK : Str → Bool) : (ts : List Ty) → WFTys rxOK ts →
     resolveArgs rxOK (exprsOf (tyExprs ts)) = some (ts.map .ty)
   | [], _ => by simp [tyExprs, exprsOf, resolveArgs]
